@@ -236,3 +236,11 @@ _extend("C18", [("c08", "r3_bestof", (), ALL, "an anchored adapter given with pa
 _extend("C02", [("c03", "r4_intervals", (), _has("RemoveBeforeMatch", "RemoveAfterMatch"), "the 3' part of a linked adapter is searched in exactly what the 5' match leaves: a base skipped there hides an exact copy that follows directly"),
                 ("c01", "r6_rate_precision", (), ALL, "an occurrence with exactly floor(rate x length) errors is admissible: the rate must not be rounded on its way to the comparison")])
 _extend("C07", [("c01", "r1_min_overlap_clamp", (), ALL, "the prefilter is built for overlaps of at least one base; a zero overlap makes the aligner report empty matches the prefilter cannot see")])
+
+# eighth round
+_extend("C15", [("c19", "r4_interleaved", (), ALL, "the demultiplexers open two-file writers without saying 'interleaved': the default must not follow --interleaved input"),
+                ("c17", "r4_names", (), ALL, "an unnamed (linked) adapter gets a generated name: the {name} file of its reads is named after it")])
+_extend("C17", [("builder_rules", "c10", ("quick",), lambda o: "length of 0" in o.construct or "decides only about its own cutter" in o.construct or "returns a record" in o.construct, "a cutter of length 0 returns None: the read never reaches the info-file writer")])
+_extend("C18", [("c09", "r5_defaults", (), ALL, "required/optional of a linked adapter's parts follow the documented defaults for -a versus -g, and an explicit ;required / ;optional decides alone"),
+                ("c07", "r1_coverage", (), _has("anywhere"), "an adapter given with ;anywhere is found wherever -b would find it, also in reads shorter than the adapter")])
+_extend("C09", [("c05", "r6_pair_adapters", (), _has("_find_best_match_pair"), "with --pair-adapters the best pair is chosen by the totals of both matches (first wins ties)")])
